@@ -195,12 +195,14 @@ func (s *Signal) MaxUnsigned() uint64 {
 
 // MinSigned returns the minimum signed value representable by the signal.
 func (s *Signal) MinSigned() int64 {
-	return (2 << (s.Length - 1) / 2) * -1
+	// -(2^(Length-1)); for Length == 64 the shift yields math.MinInt64, which is its own negation.
+	return -(int64(1) << (s.Length - 1))
 }
 
 // MaxSigned returns the maximum signed value representable by the signal.
 func (s *Signal) MaxSigned() int64 {
-	return (2 << (s.Length - 1) / 2) - 1
+	// 2^(Length-1) - 1; for Length == 64 the subtraction wraps math.MinInt64 around to math.MaxInt64.
+	return (int64(1) << (s.Length - 1)) - 1
 }
 
 // MinSigned returns the minimum signed value representable by the signal.
